@@ -6,8 +6,11 @@ REG = dict(
         "(Props/C01: rect_coverage_is_sum_over_assignments, rect_coverage_is_volume, rect_coverage_is_volume_order_statistics, "
         "band_coverage_is_rect_coverage). Steck's (1971) determinant (OpdaModel/Steck.lean, identity cited, not proved) is only a "
         "second evaluator: it must return the same rational on every table (a difference is reported as a correspondence failure)",
-        "CITED, NOT PROVED: probability-integral transform: for a continuous F other than the uniform one, F(Y_j) are independent "
-        "uniforms (the reduction band_contains_iff_box itself is proved for every continuous non-decreasing F)",
+        "PROVED (no longer trusted): probability-integral transform: for a probability measure nu on R with continuous distribution "
+        "function F (equivalently: no atoms), F(Y) is uniform on [0,1], (F(Y_1),...,F(Y_n)) are n independent uniforms, and the "
+        "probability under the n-fold product of nu that the band contains F at every t is Opda.RectProb.coverage of the level tables, "
+        "the same for every such nu (Props/C01: pit_map, pit_sublevel, pit_product, continuous_cdf_iff_no_atoms, "
+        "band_coverage_any_continuous_F; lemmas in OpdaProofs/RectPIT.lean)",
         "CITED, NOT PROVED: Dvoretzky-Kiefer-Wolfowitz inequality with Massart's constant (named hypothesis hDKW of "
         "dkw_coverage_of_massart)",
         "the law Beta(cN,(1-c)N+1) of the simulated critical value's coverage (ld methods) and scipy.stats.beta.ppf for its quantiles",
@@ -23,14 +26,19 @@ TEXT = dict(
           "L_i <= F(y_(i)) <= U_{i-1} at the order statistics (so coverage is one rectangle probability for all F); the exact-Q evaluator "
           "band.rect (dynamic programme over the cells between levels) equals the probability of that rectangle under the product "
           "measure of n independent uniforms, hence the probability that the band contains the uniform CDF everywhere "
-          "(finite combinatorics + Measure.pi; no citation); for dkw/ks tables the box is the Kolmogorov distance <= eps; the DKW "
+          "(finite combinatorics + Measure.pi; no citation); the probability integral transform (F(Y_j) independent uniforms for every "
+          "probability measure with continuous distribution function) and with it the end-to-end statement: for n i.i.d. draws from ANY "
+          "such measure the probability that the band contains the true CDF everywhere equals band.rect on the level tables "
+          "(band_coverage_any_continuous_F; non-vacuous: standard normal, uniform); for dkw/ks tables the box is the Kolmogorov distance <= eps; the DKW "
           "radius solves 2exp(-2n eps^2)=1-c, is monotone in c and antitone in n; dkw coverage >= c conditional on the cited "
           "DKW-Massart inequality; ld box <-> test statistic. Evaluated on every run with the proved evaluator on the code's own "
           "level tables: dkw >= c, ks = c +- 1e-12, ld inside the stated Beta interval, for n <= 40 (80 thorough), confidences incl. 0 "
           "and 1, finite and infinite bounds; Steck's determinant is evaluated alongside and must agree exactly.",
-    note="The headline probability statement now rests on Lean theorems for the rectangle probability (evaluated per table, n <= 80) "
-         "and on the cited probability-integral transform for non-uniform F; DKW-Massart is only needed for the universal dkw claim "
-         "beyond the evaluated tables. n beyond 80 is evaluated by the Durbin matrix oracle for dkw/ks only.",
+    note="For every continuous F the probability that a band with given level tables contains F everywhere is now a Lean theorem "
+         "(rectangle probability, evaluated per table for n <= 80, + probability-integral transform; neither is cited any more); "
+         "DKW-Massart is only needed for the universal dkw claim beyond the evaluated tables, the Beta law of the simulated critical "
+         "value (ld) stays cited. n beyond 80 is evaluated by the Durbin matrix oracle for dkw/ks only.",
     technique="Lean 4 proof of the reduction (order-statistic box) and of the exact evaluator (cell decomposition of the unit cube, "
-              "product measure) + exact rational evaluation of the boundary-crossing probability on the code's tables",
+              "product measure), of the probability integral transform (sub-level sets of a continuous CDF are half-lines; "
+              "Measure.pi_map_pi; a monotone map commutes with order statistics) + exact rational evaluation of the boundary-crossing probability on the code's tables",
 )
